@@ -956,6 +956,14 @@ def cases_C07(ctx):
     pls = [r["payload"] for r in some_payloads(ctx, ctx.n(300, 3000)) if 2 <= len(r["payload"]) <= 1023]
     for ln in [2, 3, 4, 255, 256, 257, 511, 512, 1021, 1022, 1023] + [rng.randint(2, 1023) for _ in range(ctx.n(30, 300))]:
         pls.append(gens.unknown_payload(rng, ctx.t, ln))
+    # payloads that themselves look like a frame (preamble byte, six zero bits, a length, even a right CRC):
+    # message number 3376 = 0xD30; they must be stored and serialised verbatim like any other payload
+    for inner in pls[:ctx.n(12, 120)] + [b"", b"\x00\x00"]:
+        if len(inner) + 6 <= 1023:
+            pls.append(frame(inner))
+    for _ in range(ctx.n(12, 120)):
+        ln = rng.randint(2, 60)
+        pls.append(bytes([0xD3, rng.randrange(4)]) + bytes(rng.getrandbits(8) for _ in range(ln - 2)))
     for p in pls:
         lab = rng.choice([1, 2])
         cs.append(case("msg %d %s" % (lab, hx(p)), "ser:len%d" % min(len(p) // 128, 8), ("serialize", {"payload": hx(p), "label": str(lab)})))
@@ -1400,7 +1408,10 @@ def _table_digest():
     """digest of the library's definition and lookup tables (deep, order-sensitive)"""
     import hashlib
     import importlib
-    mods = ["pyrtcm.rtcmtypes_core", "pyrtcm.rtcmtypes_get", "pyrtcm.rtcmtypes_get_msm", "pyrtcm.rtcmtypes_get_igs"]
+    import sys as _sys
+    import pyrtcm  # noqa: F401
+    # every module of the package: tables live in rtcmtables, rtcmtypes_core, rtcmtypes_get, _get_msm, _get_igs
+    mods = sorted(n for n in _sys.modules if n == "pyrtcm" or n.startswith("pyrtcm."))
 
     def canon(x):
         if isinstance(x, dict):
@@ -1481,6 +1492,9 @@ def direct_C13(ctx, impl_):
                     lines.append("msg %d %s" % (lab, hx(r["payload"])))
             except gens.BuildError:
                 pass
+    # every MSM type with every mask shape, including satellite / signal ids its tables do not define
+    for e, r, mode, sats, sigs, cells in msm_cases(ctx, ctx.n(49 * 3, 49 * 9)):
+        lines.append("msg %d %s" % (rng.choice([1, 2]), hx(r["payload"])))
     lines += ["msg 1 " + hx(bytes(rng.getrandbits(8) for _ in range(rng.randint(0, 5)))) for _ in range(ctx.n(20, 100))]
     lines = sorted(set(lines))
     ref = {l: impl_.eval_guarded(l) for l in lines}
